@@ -27,6 +27,11 @@ func (P) Gen(r *core.Rand, tier string, emit func([]string)) {
 	for i := 0; i < n; i++ {
 		emit(pxy.GenCase(r, pr))
 	}
+	// dial outcomes of CONNECT (refused, timed out, hung up) each followed by further requests
+	prt := pxy.Profile{Faults: true, Tunnels: true}
+	for i := 0; i < n/3; i++ {
+		emit(pxy.GenCase(r, prt))
+	}
 	seeds := []string{"GET / HTTP/1.1\r\n\r\n", "GET http://[::1 HTTP/1.1\r\nHost: x\r\n\r\n", "POST / HTTP/1.1\r\nContent-Length: -1\r\n\r\n", "CONNECT HTTP/1.1\r\n\r\n",
 		"GET / HTTP/1.1\r\nTransfer-Encoding: chunked\r\n\r\nZZ\r\n", "\x16\x03\x01\x02\x00\x01\x00\x01\xfc\x03\x03", "PRI * HTTP/2.0\r\n\r\nSM\r\n\r\n", "GET / HTTP/9.9\r\nHost: a\r\n\r\n",
 		"GET /%zz HTTP/1.1\r\nHost: a\r\n\r\n", "POST / HTTP/1.1\r\nHost: a\r\nContent-Length: 10\r\n\r\nabc", "GET / HTTP/1.1\r\nHost: a\r\nRange: bytes=5-1\r\n\r\n"}
